@@ -341,7 +341,8 @@ func c03Check(c C03Case, cx *h.Ctx) *h.Failure {
 	}
 	cx.Class("oracle=" + rule)
 	g := model.ToGeom()
-	err := g.Validate()
+	var err error
+	h.Lib("Validate", func() { err = g.Validate() })
 	if (err == nil) != (v == nil) {
 		return h.Failf("validate/verdict", "Validate() = %v but the definitional oracle says %s (%v)\ng = %s", err, rule, v, model)
 	}
